@@ -60,3 +60,13 @@ VARIANTS = [
          old="        self._backend.set_trial_system_attr(trial_id, key=key, value=value)\n",
          new="        result = self._backend.set_trial_system_attr(trial_id, key=key, value=value)\n        return result\n"),
 ]
+
+VARIANTS += [
+    dict(id="c05-commit-in-else", prop="C05", file=RDB, expect="R05.4",
+         old="    try:\n        yield session\n        session.commit()\n    except sqlalchemy_exc.IntegrityError as e:",
+         new="    try:\n        yield session\n    except sqlalchemy_exc.IntegrityError as e:").__class__(
+         id="c05-commit-after-try", prop="C05", edits=[
+             dict(file=RDB, old="        yield session\n        session.commit()\n    except sqlalchemy_exc.IntegrityError as e:", new="        yield session\n    except sqlalchemy_exc.IntegrityError as e:"),
+             dict(file=RDB, old="    except Exception:\n        session.rollback()\n        raise\n    finally:\n        session.close()\n", new="    except Exception:\n        session.rollback()\n        raise\n    else:\n        session.commit()\n    finally:\n        session.close()\n"),
+         ], expect="R05.4"),
+]
